@@ -7,7 +7,10 @@
 //   E <byteoff> <xorhex> ...  analysis of the base with each xorhex applied at its byteoff
 //   analysis: I=<IsValid 1|0|OOB> C1=<CalculateCRC(buffer)|OOB> F=<off:len;...|-> (messages the framer dispatched)
 // "OOB" = the call would read beyond the supplied bytes, so the harness does not make it (the model says None).
-// Every buffer handed to the library is an exact-size heap block (the ASan build reports any over-read).
+// CalculateCRC(buf, len, init) is called at every start alignment 0..7 with the buffer (a) ending exactly at the end of
+// its heap block (ASan, recover mode, reports any over-read -> "OVERREAD") and (b) followed by non-zero bytes (bytes
+// folded in change the value -> "VARIES"); a healthy answer is just the value.  Whole messages (IsValid,
+// CalculateCRC(buffer), framer input) are exact-size blocks at the alignments the header struct declares (0 and 4).
 #include <cstdint>
 #include <cstdio>
 #include <cstdlib>
@@ -41,6 +44,46 @@ struct Exact {  // exact-size, 4-byte aligned copy
   ~Exact() { free(p); }
 };
 
+
+#ifdef USE_ASAN
+extern "C" void __asan_set_error_report_callback(void (*)(const char*));
+static volatile int asan_hit = 0;
+static void asan_cb(const char*) { asan_hit = 1; }
+#else
+static volatile int asan_hit = 0;
+#endif
+
+// CalculateCRC(buf, len, init) with the buffer at every start alignment 0..7, in two placements:
+//   exact:   the buffer is the tail of an exact-size heap block (any read past its end is reported by ASan),
+//   garbage: the buffer is followed by 8 non-zero bytes inside the same block (bytes folded in change the value).
+// All 16 calls must return one value and read nothing beyond the buffer; otherwise the answer is
+// "VARIES <first value> a=<alignment> <placement> -> <other value>" and/or "OVERREAD a=<alignment>".
+static std::string crc_everywhere(const std::vector<uint8_t>& v, uint32_t init, uint32_t* value_out = nullptr) {
+  bool have = false;
+  uint32_t first = 0;
+  std::string problem;
+  for (size_t a = 0; a < 8; ++a) {
+    for (int placement = 0; placement < 2; ++placement) {
+      size_t tail = placement ? 8 : 0;
+      uint8_t* block = (uint8_t*)malloc(a + v.size() + tail + (a + v.size() + tail == 0 ? 1 : 0));
+      if (((uintptr_t)block & 7) != 0) { free(block); return "HARNESS-malloc-not-8-aligned"; }
+      for (size_t i = 0; i < a; ++i) block[i] = (uint8_t)(0x5A + i);
+      if (!v.empty()) memcpy(block + a, v.data(), v.size());
+      for (size_t i = 0; i < tail; ++i) block[a + v.size() + i] = (uint8_t)(0xA5 ^ (i * 37 + 1));
+      asan_hit = 0;
+      uint32_t c = CalculateCRC(block + a, v.size(), init);
+      if (asan_hit && problem.find("OVERREAD") == std::string::npos)
+        problem += " OVERREAD a=" + std::to_string(a) + (placement ? " garbage" : " exact");
+      if (!have) { first = c; have = true; }
+      else if (c != first && problem.find("VARIES") == std::string::npos)
+        problem += " VARIES a=" + std::to_string(a) + (placement ? " garbage" : " exact") + " -> " + std::to_string(c);
+      free(block);
+    }
+  }
+  if (value_out) *value_out = first;
+  return std::to_string(first) + problem;
+}
+
 static std::vector<std::string> g_frames;
 static const std::vector<uint8_t>* g_input = nullptr;
 static void on_msg(void*, const MessageHeader& header, const void* payload) {
@@ -56,27 +99,55 @@ static void on_msg(void*, const MessageHeader& header, const void* payload) {
 
 static size_t g_cap = 131072;
 
+static size_t g_case = 0;
+
 static std::string analysis(const std::vector<uint8_t>& v) {
   std::string out;
-  Exact e(v);
   uint32_t psize = 0;
   bool have_header = v.size() >= sizeof(MessageHeader);
   if (have_header) memcpy(&psize, v.data() + offsetof(MessageHeader, payload_size_bytes), 4);
   uint64_t need = (uint64_t)sizeof(MessageHeader) + psize;
-  // IsValid reads the header, and the whole message only when the size passes its sanity test
-  if (!have_header) out += "I=OOB";
-  else if (need > MessageHeader::MAX_MESSAGE_SIZE_BYTES) out += IsValid(e.p) ? "I=1" : "I=0";
-  else if (need > v.size()) out += "I=OOB";
-  else out += IsValid(e.p) ? "I=1" : "I=0";
-  if (!have_header || need > v.size()) out += " C1=OOB";
-  else out += " C1=" + std::to_string(CalculateCRC(e.p));
+  // IsValid reads the header, and the whole message only when the size passes its sanity test; CalculateCRC(buffer)
+  // reads the whole message.  Both get exactly the bytes they may read (header only / the message without what
+  // follows it) as the tail of an exact-size block, at the two alignments the header struct allows.
+  bool too_big = have_header && need > MessageHeader::MAX_MESSAGE_SIZE_BYTES;
+  if (!have_header) out += "I=OOB C1=OOB";
+  else if (!too_big && need > v.size()) out += "I=OOB C1=OOB";
+  else {
+    size_t n = too_big ? sizeof(MessageHeader) : (size_t)need;
+    std::string iv, c1;
+    for (size_t al = 0; al < 8; al += 4) {
+      uint8_t* block = (uint8_t*)malloc(al + n);
+      memcpy(block + al, v.data(), n);
+      asan_hit = 0;
+      std::string i = IsValid(block + al) ? "1" : "0";
+      if (asan_hit) i = "OVERREAD";
+      std::string c = "OOB";
+      if (!too_big) { asan_hit = 0; c = std::to_string(CalculateCRC(block + al)); if (asan_hit) c = "OVERREAD"; }
+      else if (need <= v.size()) {   // CalculateCRC(buffer) has no size test: give it the whole message
+        uint8_t* whole = (uint8_t*)malloc(al + need); memcpy(whole + al, v.data(), need);
+        asan_hit = 0; c = std::to_string(CalculateCRC(whole + al)); if (asan_hit) c = "OVERREAD"; free(whole);
+      }
+      free(block);
+      if (al == 0) { iv = i; c1 = c; }
+      else { if (i != iv) iv += "/al4:" + i; if (c != c1) c1 += "/al4:" + c; }
+    }
+    out += "I=" + iv + " C1=" + c1;
+  }
   g_frames.clear();
   g_input = &v;
   {
+    // framer input is a plain byte buffer: exact-size block, start alignment rotating over 0..7
+    size_t al = g_case++ % 8;
+    uint8_t* block = (uint8_t*)malloc(al + v.size() + (al + v.size() == 0 ? 1 : 0));
+    if (!v.empty()) memcpy(block + al, v.data(), v.size());
+    asan_hit = 0;
     FusionEngineFramer framer(g_cap);
     framer.WarnOnError(false);
     framer.SetMessageCallback(on_msg, nullptr);
-    framer.OnData(e.p, v.size());
+    framer.OnData(block + al, v.size());
+    free(block);
+    if (asan_hit) g_frames.push_back("OVERREAD");
   }
   out += " F=";
   if (g_frames.empty()) out += "-";
@@ -85,6 +156,9 @@ static std::string analysis(const std::vector<uint8_t>& v) {
 }
 
 int main() {
+#ifdef USE_ASAN
+  __asan_set_error_report_callback(asan_cb);
+#endif
   std::string line;
   std::vector<uint8_t> base;
   while (std::getline(std::cin, line)) {
@@ -93,19 +167,34 @@ int main() {
     is >> cmd;
     if (cmd == "C") {
       unsigned long init; is >> h >> init;
-      auto v = unhex(h); Exact e(v);
-      printf("%u\n", CalculateCRC(e.p, v.size(), (uint32_t)init));
+      auto v = unhex(h);
+      printf("%s\n", crc_everywhere(v, (uint32_t)init).c_str());
     } else if (cmd == "S") {
       size_t k; is >> h >> k;
-      auto v = unhex(h); Exact e(v);
+      auto v = unhex(h);
       if (k > v.size()) { printf("?\n"); continue; }
       std::vector<uint8_t> a(v.begin(), v.begin() + k), b(v.begin() + k, v.end());
-      Exact ea(a), eb(b);
-      printf("%u\n", CalculateCRC(eb.p, b.size(), CalculateCRC(ea.p, a.size())));
+      uint32_t ca = 0;
+      std::string ra = crc_everywhere(a, 0, &ca);
+      std::string rb = crc_everywhere(b, ca);
+      // in place as well: second chunk at its natural address inside the whole buffer, every alignment of the whole
+      std::string inplace;
+      for (size_t al = 0; al < 8 && inplace.empty(); ++al) {
+        uint8_t* block = (uint8_t*)malloc(al + v.size() + 1);
+        if (!v.empty()) memcpy(block + al, v.data(), v.size());
+        asan_hit = 0;
+        uint32_t c = CalculateCRC(block + al + k, v.size() - k, CalculateCRC(block + al, k));
+        if (asan_hit) inplace = " OVERREAD in-place a=" + std::to_string(al);
+        else if (std::to_string(c) != rb.substr(0, rb.find(' '))) inplace = " VARIES in-place a=" + std::to_string(al) + " -> " + std::to_string(c);
+        free(block);
+      }
+      size_t sp = ra.find(' ');
+      printf("%s%s%s\n", rb.c_str(), sp == std::string::npos ? "" : (" first-chunk:" + ra.substr(sp)).c_str(), inplace.c_str());
     } else if (cmd == "L") {
       size_t len; unsigned long init; is >> h >> len >> init;
-      auto v = unhex(h); Exact e(v);
-      if (len > v.size()) printf("OOB\n"); else printf("%u\n", CalculateCRC(e.p, len, (uint32_t)init));
+      auto v = unhex(h);
+      if (len > v.size()) printf("OOB\n");
+      else { std::vector<uint8_t> pre(v.begin(), v.begin() + len); printf("%s\n", crc_everywhere(pre, (uint32_t)init).c_str()); }
     } else if (cmd == "FM") {
       is >> g_cap; printf("ok\n");
     } else if (cmd == "B") {
